@@ -13,18 +13,20 @@ VARIABLES csz,      \* [stream -> Seq of size classes 0..2 = 1 / 1200 / 70 000 b
           dirs,     \* [stream -> "uni" | "bi"]
           tiny,     \* [stream -> reader starts with tiny reads]
           slow,     \* [stream -> the writer was blocked on the window at some point]
+          quiet,    \* [stream -> finish was called while the connection of A was quiet (QuietA)]
           nops,     \* application-level steps so far
           closeBy, closeAt,
           cmin,     \* earliest close point of this behaviour
           spice,    \* "reset" / "stop": the behaviour may reset / stop streams
           emitted
-gvars == <<vars, csz, dirs, tiny, slow, nops, closeBy, closeAt, cmin, spice, emitted>>
+gvars == <<vars, csz, dirs, tiny, slow, quiet, nops, closeBy, closeAt, cmin, spice, emitted>>
 
 GInit == /\ Init
          /\ csz = [s \in Streams |-> <<>>]
          /\ dirs = [s \in Streams |-> "uni"]
          /\ tiny = [s \in Streams |-> FALSE]
          /\ slow = [s \in Streams |-> FALSE]
+         /\ quiet = [s \in Streams |-> FALSE]
          /\ nops = 0 /\ closeBy = "none" /\ closeAt = 0 /\ emitted = FALSE
          /\ cmin \in CMins /\ spice \in Spices
 
@@ -42,6 +44,9 @@ Hist ==
             /\ tiny' = [s \in Streams |-> IF IsOpen(s)' /\ ~IsOpen(s) THEN t ELSE tiny[s]]
      ELSE UNCHANGED <<dirs, tiny>>
   /\ slow' = [s \in Streams |-> slow[s] \/ (fs'[Wf(s)] = "pend" /\ ph[Wf(s)] = "write")]
+  /\ quiet' = [s \in Streams |-> quiet[s] \/ (finS'[s] = "fin" /\ finS[s] = "no" /\ QuietA)]
+  \* in the behaviours chosen for it every finish waits for a quiet connection
+  /\ (\E s \in Streams : finS'[s] = "fin" /\ finS[s] = "no") => (spice = "quiet" => QuietA)
   /\ nops' = IF AppReturn THEN nops + 1 ELSE nops
   /\ IF closeBy = "none" /\ (epClosed'["A"] /\ ~epClosed["A"])
      THEN closeBy' = "endpoint" /\ closeAt' = nops + 1
@@ -62,7 +67,7 @@ Hist ==
 GNext == \/ Progress /\ Hist /\ UNCHANGED emitted
          \/ /\ AcceptableFinal /\ ~emitted
             /\ emitted' = TRUE
-            /\ UNCHANGED <<vars, csz, dirs, tiny, slow, nops, closeBy, closeAt, cmin, spice>>
+            /\ UNCHANGED <<vars, csz, dirs, tiny, slow, quiet, nops, closeBy, closeAt, cmin, spice>>
 
 GSpec == GInit /\ [][GNext]_gvars
 
@@ -70,7 +75,7 @@ Program ==
   [win |-> IF win < Units THEN "small" ELSE "default", maxs |-> maxs0,
    streams |-> [s \in Streams |->
        [dir |-> dirs[s], chunks |-> csz[s],
-        end |-> IF finS[s] = "reset" THEN "reset" ELSE "fin",
+        end |-> IF finS[s] = "reset" THEN "reset" ELSE IF quiet[s] THEN "quietfin" ELSE "fin",
         pace |-> IF stopS[s] THEN "stop" ELSE IF slow[s] THEN "slow" ELSE IF tiny[s] THEN "tiny" ELSE "eager"]],
    dgrams |-> dgNext - 1, close |-> closeBy, closeAt |-> closeAt]
 
